@@ -5,6 +5,7 @@ import (
 	"encoding/json"
 	"fmt"
 	"hash/fnv"
+	"runtime"
 	"strings"
 	"testing"
 
@@ -922,6 +923,61 @@ var c04Names = probe.Define("C04", "unknown-names", func(t *rapid.T) c04NameIn {
 	return probe.OK(true, "unknown-names")
 })
 
+// Nothing is kept: decoding many DIFFERENT datagrams and dropping the results leaves the process where it was. A decoder
+// that remembers what it has seen (a table of vendor ids, a cache of parsed proposals) makes the work and the memory of a call
+// depend on the history of the process instead of on its input.
+type c04RetainIn struct {
+	N int `json:"datagrams"`
+}
+
+var c04Retention = probe.Define("C04", "retention", func(t *rapid.T) c04RetainIn { panic("enumerated") }, func(in c04RetainIn) probe.Outcome {
+	h := model.Header{ISPI: 1, RSPI: 2, Major: 2, Exchange: 34, Flags: 8}
+	live := func() uint64 {
+		runtime.GC()
+		runtime.GC()
+		var ms runtime.MemStats
+		runtime.ReadMemStats(&ms)
+		return ms.HeapAlloc
+	}
+	flood := func(round int) error {
+		for i := 0; i < in.N; i++ {
+			big := make(model.Bytes, 1024)
+			for j := range big {
+				big[j] = byte(i>>uint(8*(j%3))) ^ byte(j*round)
+			}
+			uniq := model.Bytes{byte(i), byte(i >> 8), byte(i >> 16), byte(round), 0x55}
+			m := model.Message{Header: h, Payloads: []model.Payload{
+				{Kind: model.KVendor, Data: big}, {Kind: model.KNonce, Data: uniq}, {Kind: model.KNotify, Notify: &model.Notify{Type: uint16(i), SPI: uniq[:4], Data: uniq}},
+				{Kind: model.KIDi, ID: &model.ID{Type: 2, Data: uniq}}, {Kind: model.KKE, KE: &model.KE{Group: uint16(i), Data: uniq}},
+				{Kind: model.KSA, SA: &model.SA{Proposals: []model.Proposal{{Number: 1, Protocol: 1, SPI: uniq, Transforms: []model.Transform{{Type: 1, ID: uint16(i)}}}}}},
+				{Kind: model.KEAP, EAP: &model.EAP{Code: 1, Identifier: byte(i), Kind: model.EIdentity, Data: uniq}},
+			}}
+			m.Header.MsgID = uint32(i)
+			w, err := ref.EncodeMessage(m, nil)
+			if err != nil {
+				return err
+			}
+			if err := probe.Try(func() error { return new(message.IKEMessage).Decode(w) }); err != nil {
+				return err
+			}
+		}
+		return nil
+	}
+	if err := flood(1); err != nil { // warm-up: whatever is initialised once is initialised now
+		return probe.Fail("HARNESS: %v", err)
+	}
+	before := live()
+	if err := flood(2); err != nil {
+		return probe.Fail("HARNESS: %v", err)
+	}
+	after := live()
+	if after > before+4<<20 {
+		return probe.Fail("decoding %d different datagrams (about %d KiB in all) and dropping the results left %d KiB more live heap than before: the library keeps what it decodes",
+			in.N, in.N*11/10, (after-before)>>10)
+	}
+	return probe.OK(true, "retention")
+})
+
 func TestC04(t *testing.T) {
 	c := probe.NewCtx(t, "C04")
 	shards := 1
@@ -930,6 +986,7 @@ func TestC04(t *testing.T) {
 		shards = 8
 	}
 	if c.Shard == 0 {
+		c04Retention.Eval(c, c04RetainIn{N: c.N(12000, 40000)})
 		c04RunSKBodies(c)
 		c04RunSANested(c)
 		// every notify type and every configuration attribute type with a few data lengths, as payload bodies (exact capacity
